@@ -106,9 +106,10 @@ theorem wordBits_and_lowMask (w : BitVec 64) (bi : Nat) (hbi : bi < 64) :
     simp only at hm
     rw [BitVec.getLsbD_and, hm]
     by_cases hlt : i < bi
-    · rw [List.getElem?_append_left (by simp [wordBits_length]; omega), List.getElem?_take]
-      simp [hlt, wordBits_getElem?, hi]
-    · rw [List.getElem?_append_right (by simp [wordBits_length]; omega)]
+    · rw [List.getElem?_append_left (by rw [List.length_take, wordBits_length]; omega), List.getElem?_take,
+        if_pos hlt, wordBits_getElem?, if_pos hi]
+      simp only [hlt, decide_true, Bool.and_true]
+    · rw [List.getElem?_append_right (by rw [List.length_take, wordBits_length]; omega)]
       simp only [hlt, decide_false, Bool.and_false, List.length_take, wordBits_length]
       rw [List.getElem?_replicate]
       have : i - min bi 64 < 64 - bi := by omega
@@ -116,7 +117,7 @@ theorem wordBits_and_lowMask (w : BitVec 64) (bi : Nat) (hbi : bi < 64) :
   · simp only [hi, if_false]
     symm
     apply List.getElem?_eq_none
-    simp [wordBits_length]; omega
+    rw [List.length_append, List.length_take, wordBits_length, List.length_replicate]; omega
 
 theorem popc_eq_count (w : BitVec 64) : popc w = (wordBits w).count true := Kernels.popc_eq_popcount w
 
